@@ -56,6 +56,9 @@ func TestMain(m *testing.M) {
 	glue.LoadRegistry()
 	intermediate.MaxRetries = 1 << 30
 	if rp := ev.LoadReplay(); rp != nil {
+		if rp.Phase == "slow_scan" {
+			ev.RunReplay(rp, aggh.RunSlow)
+		}
 		if rp.Phase == "burst" {
 			ev.RunReplay(rp, runBurst)
 		}
@@ -574,6 +577,27 @@ func runBurst(n int) *ev.Failure {
 }
 
 func TestC13(t *testing.T) {
+	if ev.Shard() <= 1 {
+		// real time passing inside an expiry scan while other goroutines use the process (shared with C06)
+		scens := aggh.SlowScens()
+		var fails []*ev.Failure
+		okSlow := t.Run("slow_scan", func(t *testing.T) {
+			fails = aggh.RunSlowAll(scens)
+			for si, sc := range scens {
+				rec.Case(ev.Hash(sc), true, "slow_scan", sc.Name)
+				if fails[si] != nil {
+					rec.Violation("slow_scan", sc, fails[si].Msg)
+					t.Errorf("%s", fails[si].Msg)
+				}
+			}
+		})
+		if !okSlow {
+			if rec.Violations() == 0 {
+				rec.Violation("race", "slow_scan", "the race detector reported a data race in the slow-scan scenarios (the report is in the check's output)")
+			}
+			return
+		}
+	}
 	if ev.Shard() <= 1 {
 		nb := 3000
 		if rec.Thorough() {
